@@ -34,6 +34,11 @@ CHECKS = {
    note="Partial proof: storage-option independence through buffer events is established by the differential runs only. Trusted: as C02.",
    technique="Lean independence theorems (partial) + differential runs of binaries across representation options",
    design="5/C12"),
+ "C03": dict(cat="proof",
+   text="Lean theorems on the runtime model: for every machine passing the decidable check safeCheck (each append is the not-full branch of its own out-of-space test, constants and defaults fit, sizes leave room for the terminator), from any store satisfying the invariant, on every input under every chunking and in every storage mode, no write goes through NULL/freed memory or outside a buffer, nothing is freed twice, and every counter stays within capacity (C03_no_memory_fault, C03_counters_within_capacity, C03_end_safe). safeCheck is evaluated on every exported machine. ASan+UBSan+LeakSanitizer builds of the real C run the sampled sessions; dumps are checked for counter<=capacity, bytes=counter, NUL at the counter; model traces must equal the binary's.",
+   note="Modelled, not verified: the C semantics of the templates (memcpy lengths, malloc never fails); start() establishing the invariant is checked by the sanitizer runs, not yet by a theorem; UB of the user's own arithmetic is excluded. Trusted: clang sanitizers, as C02.",
+   technique="Lean invariant proof on the runtime model + per-machine decidable check + sanitizer runs of the binary",
+   design="5/C03"),
 }
 
 def main():
